@@ -15,6 +15,7 @@ Section Proofs.
   Notation plan := (plan V zero).
   Notation plan_fields := (plan_fields V zero).
   Notation fill_plan := (fill_plan V zero).
+  Notation fill_action := (fill_action V).
   Notation fill_plan_fields := (fill_plan_fields V zero).
   Notation project := (project V zero).
   Notation project_fields := (project_fields V zero).
@@ -171,21 +172,21 @@ Section Proofs.
 
   (* [pres]: the shared group is present in the entry that the template column
      contributes; then required chains get the zero value *)
-  Lemma fill_plan_ok (C : list column) k d r d0 (pres : bool) k' :
-    (forall z, run C (AFill 0 k d z) = [((if pres then z else None), r, d0)]) ->
+  Lemma fill_plan_ok (C : list column) hold k d r d0 (pres : bool) k' :
+    (forall z, run C (fill_action hold k d z) = [((if pres then z else None), r, d0)]) ->
     (forall t allreq,
-       conv (fill_plan t k d allreq) C =
+       conv (fill_plan t hold k d allreq) C =
        if pres && allreq then shred (erase t) (zero_val t) r d0 k' else nulls (erase t) r d0) /\
     (forall fs allreq,
-       conv (fill_plan_fields fs k d allreq) C =
+       conv (fill_plan_fields fs hold k d allreq) C =
        if pres && allreq then shred_fields (erase_fields fs) (zero_fields fs) r d0 k'
        else repeat [(None, r, d0)] (nlf fs)).
   Proof.
     intros H.
     apply (nschema_both
-      (fun t => forall allreq, conv (fill_plan t k d allreq) C =
+      (fun t => forall allreq, conv (fill_plan t hold k d allreq) C =
          if pres && allreq then shred (erase t) (zero_val t) r d0 k' else nulls (erase t) r d0)
-      (fun fs => forall allreq, conv (fill_plan_fields fs k d allreq) C =
+      (fun fs => forall allreq, conv (fill_plan_fields fs hold k d allreq) C =
          if pres && allreq then shred_fields (erase_fields fs) (zero_fields fs) r d0 k'
          else repeat [(None, r, d0)] (nlf fs))).
     - intros ty allreq. cbn [Model.fill_plan]. unfold Model.conv. cbn [map]. rewrite H.
@@ -226,14 +227,14 @@ Section Proofs.
 
   (** ** indexes of a plan stay inside the source node *)
 
-  Lemma fill_plan_index k d :
-    (forall t allreq, Forall (fun a => act_index V a = 0) (fill_plan t k d allreq)) /\
-    (forall fs allreq, Forall (fun a => act_index V a = 0) (fill_plan_fields fs k d allreq)).
+  Lemma fill_plan_index hold k d :
+    (forall t allreq, Forall (fun a => act_index V a = 0) (fill_plan t hold k d allreq)) /\
+    (forall fs allreq, Forall (fun a => act_index V a = 0) (fill_plan_fields fs hold k d allreq)).
   Proof.
     apply (nschema_both
-      (fun t => forall allreq, Forall (fun a => act_index V a = 0) (fill_plan t k d allreq))
-      (fun fs => forall allreq, Forall (fun a => act_index V a = 0) (fill_plan_fields fs k d allreq))).
-    - intros; repeat constructor.
+      (fun t => forall allreq, Forall (fun a => act_index V a = 0) (fill_plan t hold k d allreq))
+      (fun fs => forall allreq, Forall (fun a => act_index V a = 0) (fill_plan_fields fs hold k d allreq))).
+    - intros; destruct hold; repeat constructor.
     - intros fs IH allreq. apply IH.
     - intros; constructor.
     - intros n r s IHs fs IHf allreq. cbn [Model.fill_plan_fields]. apply Forall_app. split; auto.
@@ -266,8 +267,8 @@ Section Proofs.
       destruct Hs as [Hp Hf]. now apply IH.
     - intros; constructor.
     - intros n r t IHt tfs IHf sfs k d Hs Hp. cbn [Model.plan_fields]. apply Forall_app. split; [|now apply IHf].
-      assert (Hfill : forall b, Forall (fun a => act_index V a < nlf sfs) (fill_plan t k d b)).
-      { intros b. eapply Forall_impl; [|apply (proj1 (fill_plan_index k d))]. cbn. intros a ->. exact Hp. }
+      assert (Hfill : forall h b, Forall (fun a => act_index V a < nlf sfs) (fill_plan t h k d b)).
+      { intros h b. eapply Forall_impl; [|apply (proj1 (fill_plan_index h k d))]. cbn. intros a ->. exact Hp. }
       destruct (find_field n sfs 0 0) as [[[[off pos] rs] s]|] eqn:Ef; [|apply Hfill].
       destruct (find_field_bound _ _ _ _ _ _ Ef Hs) as [Hle Hws].
       assert (Hsh : Forall (fun a => act_index V a < nlf sfs)
@@ -284,9 +285,9 @@ Section Proofs.
          match s, t with
          | NLeaf _, NLeaf _ | NGroup _, NGroup _ =>
              map (shift V off) (plan s t (rep_k rp k) (rep_d rp d))
-         | _, _ => fill_plan t k d (is_req rp)
+         | _, _ => fill_plan t (holds sfs k d) k d (is_req rp)
          end
-     | None => fill_plan t k d (is_req rp)
+     | None => fill_plan t (holds sfs k d) k d (is_req rp)
      end) ++ plan_fields sfs tfs k d.
   Proof. reflexivity. Qed.
 
@@ -304,6 +305,45 @@ Section Proofs.
      | None => field_default V zero rp t
      end) :: project_fields sfs vs tfs.
   Proof. reflexivity. Qed.
+
+  (** ** the placeholder action only occurs at levels (0, 0) *)
+
+  Lemma fill_plan_no_hold k d :
+    (forall t b, no_hold V (fill_plan t false k d b)) /\
+    (forall fs b, no_hold V (fill_plan_fields fs false k d b)).
+  Proof.
+    apply (nschema_both (fun t => forall b, no_hold V (fill_plan t false k d b))
+                        (fun fs => forall b, no_hold V (fill_plan_fields fs false k d b))).
+    - intros; repeat constructor.
+    - intros fs IH b. apply IH.
+    - intros; constructor.
+    - intros n r s IHs fs IHf b. cbn [Model.fill_plan_fields]. apply Forall_app.
+      split; [apply IHs|apply IHf].
+  Qed.
+
+  Lemma holds_pos sfs k d : 0 < d -> holds sfs k d = false.
+  Proof. intros H. unfold holds. destruct d; [lia|]. cbn. now rewrite andb_false_r. Qed.
+
+  Lemma plan_no_hold :
+    (forall t s k d, 0 < d -> no_hold V (plan s t k d)) /\
+    (forall tfs sfs k d, 0 < d -> no_hold V (plan_fields sfs tfs k d)).
+  Proof.
+    apply (nschema_both (fun t => forall s k d, 0 < d -> no_hold V (plan s t k d))
+                        (fun tfs => forall sfs k d, 0 < d -> no_hold V (plan_fields sfs tfs k d))).
+    - intros; repeat constructor.
+    - intros tfs IH [ty|sfs] k d Hd; cbn [Model.plan]; [constructor|now apply IH].
+    - intros; constructor.
+    - intros n rp t IHt tfs IHf sfs k d Hd. rewrite plan_fields_cons. apply Forall_app.
+      split; [|now apply IHf]. rewrite (holds_pos sfs k d Hd).
+      assert (Hsh : forall off s, no_hold V (map (shift V off) (plan s t (rep_k rp k) (rep_d rp d)))).
+      { intros off s. apply Forall_forall. intros a Ha. apply in_map_iff in Ha.
+        destruct Ha as (a0 & <- & Ha0).
+        assert (Hd' : 0 < rep_d rp d) by (destruct rp; cbn; lia).
+        pose proof (IHt s (rep_k rp k) (rep_d rp d) Hd') as Hn. unfold no_hold in Hn.
+        rewrite Forall_forall in Hn. specialize (Hn a0 Ha0). destruct a0; cbn in *; auto. }
+      destruct (find_field n sfs 0 0) as [[[[off pos] rs] s]|]; [|apply (proj1 (fill_plan_no_hold k d))].
+      destruct s, t; try apply Hsh; apply (proj1 (fill_plan_no_hold k d)).
+  Qed.
 
   (** ** a null ancestor: every column of the node holds one null entry *)
 
@@ -353,9 +393,10 @@ Section Proofs.
       rewrite plan_fields_cons, conv_app, IHf by assumption.
       rewrite nlf_cons. rewrite <- nulls_app_n. f_equal.
       set (C := repeat [(None, r, d0)] (nlf sfs)).
-      assert (Hfill : forall b, conv (fill_plan t k d b) C = nulls (erase t) r d0).
+      rewrite (holds_pos sfs k d) by lia.
+      assert (Hfill : forall b, conv (fill_plan t false k d b) C = nulls (erase t) r d0).
       { intros b.
-        destruct (fill_plan_ok C k d r d0 false 0) as [F _].
+        destruct (fill_plan_ok C false k d r d0 false 0) as [F _].
         - intros z. apply run_fill_absent; auto. subst C. now apply nth0_repeat.
         - apply F. }
       destruct (find_field n sfs 0 0) as [[[[off pos] rs] s]|] eqn:Ef; [|apply Hfill].
@@ -429,7 +470,7 @@ Section Proofs.
         assert (Hplan : (match s, t with
                          | NLeaf _, NLeaf _ | NGroup _, NGroup _ =>
                              map (shift V off) (plan s t (rep_k rp k) (rep_d rp d))
-                         | _, _ => fill_plan t k d (is_req rp)
+                         | _, _ => fill_plan t (holds sfs k d) k d (is_req rp)
                          end) = map (shift V off) (plan s t (rep_k rp k) (rep_d rp d))).
         { pose proof (compat_same_kind _ _ Hcst). destruct s, t; try discriminate; reflexivity. }
         rewrite Hplan, Hhead. clear Hplan Hhead.
@@ -449,7 +490,7 @@ Section Proofs.
           -- cbn [map]. rewrite shred_fields_cons. f_equal.
              inversion Hl as [|? ? Hx Hl']; subst.
              pose proof (wf_erase _ Hws) as Hes.
-             rewrite (conv_fold_zipapp V _ _ _ (nl s)).
+             rewrite (conv_fold_zipapp V _ _ (proj1 plan_no_hold t s (S k) (S d) (Nat.lt_0_succ d)) _ (nl s)).
              ++ rewrite (IHt s x r (S d) (S k) n) by (auto; lia).
                 f_equal. rewrite !map_map. apply map_ext_in. intros y Hy.
                 rewrite Forall_forall in Hl'. apply (IHt s y (S k) (S d) (S k) n); auto.
@@ -459,8 +500,13 @@ Section Proofs.
       + (* added field *)
         destruct (group_cols_shape sfs vs r d k n Hs Hp Hv Hr) as (e & rest & HC & H1 & H2 & H3).
         fold C in HC.
-        destruct (fill_plan_ok C k d r d true k) as [F _].
-        { intros z. eapply run_fill_present; eauto. }
+        destruct (fill_plan_ok C (holds sfs k d) k d r d true k) as [F _].
+        { intros z. unfold Model.fill_action. destruct (holds sfs k d) eqn:Eh.
+          - unfold holds in Eh. apply andb_true_iff in Eh. destruct Eh as [Eh _].
+            apply andb_true_iff in Eh. destruct Eh as [Ek Ed].
+            apply Nat.eqb_eq in Ek. apply Nat.eqb_eq in Ed.
+            cbn. replace r with 0 by lia. replace d with 0 by lia. reflexivity.
+          - eapply run_fill_present; eauto. }
         rewrite F. cbn [andb].
         destruct rp; cbn [is_req Model.field_default].
         * now rewrite shred_fields_req.
